@@ -1,8 +1,8 @@
 (* C10/C11 driver: the extracted allocator model on the line protocol of harness/h_fsm.c.
-   argv[1] = code variant "LSY": L=1 model of the code after fixes/fsm-lfbk.diff, S=1 after fixes/fsm-strict-dealloc.diff,
-   Y=1 after fixes/fsm-syncbmap.diff. *)
-let arg = (if Array.length Sys.argv > 1 then Sys.argv.(1) else "") ^ "000"
-let vr mm = { fx_lfbk = (arg.[0] = '1'); fx_strict = (arg.[1] = '1'); fx_sync = (arg.[2] = '1'); mmap_all = mm }
+   argv[1] = code variant "LSYZ": L=1 model of the code after fixes/fsm-lfbk.diff, S=1 after fixes/fsm-strict-dealloc.diff,
+   Y=1 after fixes/fsm-syncbmap.diff, Z=1 after fixes/fsm-dealloc-short.diff. *)
+let arg = (if Array.length Sys.argv > 1 then Sys.argv.(1) else "") ^ "0000"
+let vr mm = { fx_lfbk = (arg.[0] = '1'); fx_strict = (arg.[1] = '1'); fx_sync = (arg.[2] = '1'); fx_short = (arg.[3] = '1'); mmap_all = mm }
 let cur : fsm option ref = ref None      (* open file *)
 let left : fsm option ref = ref None     (* what close left on disk *)
 let notrim = ref false
